@@ -13,8 +13,9 @@
    whole folder has been delivered (decompressor.is_complete()); a member whose CRC is stored at
    folder level carries it as its own digest as well; py7zr's writer stores the CRC of the plain
    header in an encoded/encrypted header and Header._read verifies it when present; testzip()
-   calls reset() first; the symbolic-link branch of _extract_single still compares no CRC and
-   testzip() still returns args[2] of a folder-level CrcError, i.e. None.
+   calls reset() first and reports a folder-level CrcError with a marker string that is neither
+   None nor a member name (commit 065e810; before it, it returned args[2] = None, i.e. "good");
+   the symbolic-link branch of _extract_single still compares no CRC.
    stdlib only; no axioms. *)
 From P7 Require Import Prelude Crc32.
 From Coq Require Import NArith ZArith List Bool Lia ZifyBool.
@@ -278,8 +279,9 @@ Definition clear_shape (s : shape) : shape :=
   | ManyFolders files folders => ManyFolders (map clear_f files) (map (map clear_f) folders)
   end.
 
-(* TZ r: returns r (None = "no bad file"); TZFlag: returns something that is not
-   None and not a member name (the repaired variant, [tzfolder] = true) *)
+(* TZ r: returns r (None = "no bad file"); TZFlag: returns "(folder checksum)", which is not
+   None and not a member name.  [tzfolder] = true is the code as it is (commit 065e810);
+   [tzfolder] = false is the code before that commit, kept for the regression example. *)
 Inductive tzres := TZ (r : option Z) | TZFlag | TZRaise (e : err).
 
 Definition testzip (tzfolder : bool) (dec : Z -> dres) (s : shape) : tzres :=
@@ -290,7 +292,11 @@ Definition testzip (tzfolder : bool) (dec : Z -> dres) (s : shape) : tzres :=
   | Raised (XErr e) => TZRaise e
   end.
 
-(* test(): packed-stream CRCs.  [body] from offset 32. *)
+(* SevenZipFile.testzip as it is *)
+Definition testzip_impl (dec : Z -> dres) (s : shape) : tzres := testzip true dec s.
+
+(* test(): packed-stream CRCs.  [body] from offset 32.  Since commit 8623e75 PackInfo.crcs holds one
+   entry per packed stream (0 where no CRC is defined) and test() reads crcs[i] for stream i. *)
 Fixpoint test_go (defs : list bool) (sizes crcs : list Z) (pos : Z) (body : bytes) : res bool :=
   match defs with
   | [] => Ok true
@@ -305,7 +311,7 @@ Fixpoint test_go (defs : list bool) (sizes crcs : list Z) (pos : Z) (body : byte
                 if crc32 (sliceZ pos sz body) =? c then test_go ds ss cs (pos + sz) body
                 else Ok false
             end
-          else test_go ds ss crcs (pos + sz) body
+          else test_go ds ss (tl crcs) (pos + sz) body
       end
   end.
 
@@ -1063,6 +1069,11 @@ Proof.
   - apply check_none_passes. exact Ec.
 Qed.
 
+(* testzip() = None  =>  every data member was decoded and its CRC-32 matched the stored one *)
+Theorem testzip_sound : forall dec s,
+  testzip_impl dec s = TZ None -> forall f, In f (all_data s) -> passes dec f.
+Proof. intros dec s. apply testzip_sound_partial. left. reflexivity. Qed.
+
 (* the members of the shape, list by list *)
 Definition shape_lists (s : shape) : list (list mfile) :=
   match s with
@@ -1143,6 +1154,12 @@ Proof.
       * intros f Hf. apply (Hsym l0); [right; exact Hl0 | exact Hf].
 Qed.
 
+Theorem testzip_impl_none_extract_ok : forall symcheck link_ok dec s skip,
+  (forall l, In l (shape_lists s) -> forall f, In f l -> f_symlink f && tpath (f_tgt f) = false) ->
+  testzip_impl dec s = TZ None ->
+  exists out, worker_extract symcheck link_ok dec skip s = Done out.
+Proof. intros symcheck link_ok dec s skip. apply testzip_none_extract_ok. left. reflexivity. Qed.
+
 (* ------------------------------------------------------------------ *)
 (** * Proofs: test()                                                     *)
 (* ------------------------------------------------------------------ *)
@@ -1160,7 +1177,7 @@ Fixpoint streams_match (defs : list bool) (sizes crcs : list Z) (pos : Z) (body 
             | [] => False
             | c :: cs => crc32 (sliceZ pos sz body) = c /\ streams_match ds ss cs (pos + sz) body
             end
-          else streams_match ds ss crcs (pos + sz) body
+          else streams_match ds ss (tl crcs) (pos + sz) body
       end
   end.
 
@@ -1525,8 +1542,9 @@ Example symlink_checked_when_repaired :
   worker_extract true (fun _ => true) (fun _ => DOk [[116; 98]]) true (OneFolder [f]) = Raised (XCrc (Some 7)).
 Proof. vm_compute. reflexivity. Qed.
 
-(* REFUTED: testzip() = None does not mean that every member's CRC matched.  A folder-level CRC
-   mismatch raises CrcError(crc, digest, None); testzip returns args[2] = None. *)
+(* Regression example: for the code before commit 065e810 ([tzfolder] = false) testzip() = None did
+   not mean that every member's CRC matched.  A folder-level CRC mismatch raises
+   CrcError(crc, digest, None); testzip returned args[2] = None. *)
 Theorem testzip_sound_refuted :
   exists dec s f,
     testzip false dec s = TZ None /\ In f (all_data s) /\ ~ passes dec f /\
@@ -1537,6 +1555,24 @@ Proof.
   split; [vm_compute; reflexivity |]. split; [left; reflexivity |].
   split; [intros [ch [H _]]; discriminate H | vm_compute; reflexivity].
 Qed.
+
+Theorem testzip_unrepaired_regression_example :
+  exists dec s f,
+    testzip false dec s = TZ None /\ In f (all_data s) /\ ~ passes dec f /\
+    worker_extract false (fun _ => true) dec true s = Raised (XCrc None) /\
+    testzip_impl dec s = TZFlag.
+Proof.
+  destruct testzip_sound_refuted as [dec [s [f [H1 [H2 [H3 H4]]]]]].
+  exists dec, s, f. repeat split; try assumption.
+  unfold testzip_impl. rewrite testzip_char. rewrite testzip_char in H1.
+  destruct (check dec (all_data s)) as [[[i |] | e] |] eqn:E; try discriminate H1; try reflexivity.
+  exfalso. apply H3. exact (check_none_passes dec _ E f H2).
+Qed.
+
+(* the same input with the code as it is: reported *)
+Example testzip_impl_reports_folder_crc :
+  testzip_impl (fun _ => DFolderCrc) (OneFolder [mkFile 0 [97] false None false TMem]) = TZFlag.
+Proof. vm_compute. reflexivity. Qed.
 
 (* hypotheses of the flow theorems are met by a non-trivial state: a folder whose second member
    is skipped (decoded only to be checked), third delivered, fourth (trailing, skipped) not decoded *)
@@ -1555,8 +1591,8 @@ Example burst_example : burst [1; 2; 3; 4; 5; 6] [1; 2; 3; 255; 250; 6].
 Proof. split; [reflexivity |]. exists 65531%N, 24%N. vm_compute. repeat split; reflexivity. Qed.
 
 Example test_example :
-  test_model 1 [true; false; true] [2; 1; 3] [crc32 [5; 6]; crc32 [8; 9; 10]] [0; 5; 6; 7; 8; 9; 10] = Ok (Some true) /\
-  test_model 1 [true; false; true] [2; 1; 3] [crc32 [5; 6]; crc32 [8; 9; 10]] [0; 5; 6; 7; 8; 9; 11] = Ok (Some false) /\
+  test_model 1 [true; false; true] [2; 1; 3] [crc32 [5; 6]; 0; crc32 [8; 9; 10]] [0; 5; 6; 7; 8; 9; 10] = Ok (Some true) /\
+  test_model 1 [true; false; true] [2; 1; 3] [crc32 [5; 6]; 0; crc32 [8; 9; 10]] [0; 5; 6; 7; 8; 9; 11] = Ok (Some false) /\
   test_model 1 [] [2; 1; 3] [] [0; 5; 6; 7; 8; 9; 10] = Ok None.
 Proof. vm_compute. repeat split; reflexivity. Qed.
 
@@ -1568,6 +1604,7 @@ Print Assumptions copy_burst_detected.
 Print Assumptions accept_implies_intact_or_collision.
 Print Assumptions version_alteration_harmless.
 Print Assumptions testzip_sound_partial.
+Print Assumptions testzip_sound.
 Print Assumptions testzip_none_extract_ok.
 Print Assumptions testzip_sound_refuted.
 Print Assumptions accept_implies_intact_or_collision_refuted_unprotected_header.
